@@ -566,8 +566,8 @@ def checkFormats (ctx : Ctx) (fl : Flags) (formats : List (List Char × KMsg)) :
   runAll ctx fl (sortBy nameLt formats)
 
 /-- `ctx.plural_preimage` as `check_plurals` leaves it for a catalog with the given `Plural-Forms` field(s) -/
-def preimageOfHeader (pluralForms : List (List Char)) : Option CheckPlurals.Preimage :=
-  match CheckPlurals.checkPlurals ⟨pluralForms, none, [], [], false⟩ with
+def preimageOfHeader (isTemplate : Bool) (pluralForms : List (List Char)) : Option CheckPlurals.Preimage :=
+  match CheckPlurals.checkPlurals ⟨pluralForms, none, [], [], isTemplate⟩ with
   | .ok out => out.preimage
   | .error _ => none
 
